@@ -265,6 +265,24 @@ def _cli_case(case, pt, d=None, cells=None):
         got = strictjson.loads(r.stdout)['Number of PELs found']
     except Exception as e:
         got = 'unreadable (%s)' % e
+    # the same rule decides whether -f <file> shows its PEL: six of the sixty files per option set (all files over the plan)
+    w = (sum(b << i for i, b in enumerate(sw)) * len(CLI_S_LISTS) + sl)
+    for j in range(6):
+        ci = (w * 7 + j * 11) % len(cells)
+        sev, flags = cells[ci]
+        sel = ref.selected(sev, flags, *[bool(x) for x in sw], groups=groups)
+        argv = ['-f', os.path.join(d, 'pel%03d' % ci)] + _argv(d, sw, sl, '-n')[3:]
+        core.arm(30)
+        rf = clidrv.run_main(argv, isolate=False)
+        core.disarm()
+        try:
+            shown = strictjson.loads(rf.stdout)['Private Header']['Entry Id'] == '0x%08X' % (0x50000000 + ci) if rf.stdout.strip() else False
+        except Exception as e:
+            shown = 'unreadable (%s)' % e
+        if shown != sel:
+            out.append({'key': 'C07:cli-file', 'what': '-f <PEL with severity 0x%02X flags 0x%04X> %s: shown=%r, rule says %s' % (
+                sev, flags, ' '.join(argv[2:]), shown, sel), 'case': case})
+            break
     if got != want:
         misc = [s for s, f in cells if 1 <= s <= 0xF]
         key = 'F6:severity-group-by-hex-string-prefix' if groups and misc and \
